@@ -255,7 +255,8 @@ where
         let k = n.min(MINI_CASES);
         let mut rep = Report::default();
         for j in 0..k {
-            let idx = if k == 0 { 0 } else { j * (n / k) };
+            // offset 1: index 0 of a stream is often its deliberately largest case
+            let idx = (j * (n / k) + 1).min(n - 1);
             let mut cx = CaseCtx { cfg, stream, idx, rng: Rng::for_case(cfg.seed, stream, idx), rep: &mut rep, verbose: false };
             if let Err(p) = catches(|| f(&mut cx)) {
                 cx.violation(format!("unexpected panic on an in-domain workload step: {}", p), J::Null);
